@@ -56,7 +56,13 @@ CHECKS["C03"] = ("clones", "exploration",
    "Trusted: harness, verif_hooks renderings (values by content). Output printed twice after reverse steps is not compared (reverse stepping does not un-print; C02 excludes output). The d2 canvas (Cell::AnyRc) being shared between clones is a listed known finding, classified separately so that it suppresses nothing else. The words the property excludes are not generated.",
    "DESIGN.md §5 C03")
 
-PENDING = {k: "check under construction in this session (claimed in DESIGN.md); listed here only until its engine lands" for k in ["C06","C08"]}
+CHECKS["C06"] = ("cursor", "exploration",
+   "deterministic simulation of the stream-reading surface with fault injection: inputs of arbitrary bit length and alignment (EOF at any bit), the word's result push made to fail by an armed stack limit after its cursor logic ran, reads inside a meta block, out-of-range / huge / negative / wrongly typed arguments; refinement against a stack-of-(bits, offset) model after every word; run in the release and the overflow-checked build",
+   "Seeded exploration of word sequences over the parsing cursor with a model of the input stack. Ok => returned bits are exactly model bits [offset, offset+n) and the offset moved by n; Err => input, offset, suspended inputs and the stack below the word's arguments untouched; offset stays inside the input, remain == end - offset, close-bitstr restores the previous input and offset LIFO; exact in-range requests of a valid type must succeed; a panic is a violation. Both build profiles, because overflowing size arithmetic panics in one and mis-reads in the other.",
+   "Trusted: harness and its model. Decoded numeric values are not asserted (C05's business), only how far the cursor moved. `find` is modelled on byte-aligned rests only (it refuses others by design).",
+   "DESIGN.md §5 C06")
+
+PENDING = {k: "check under construction in this session (claimed in DESIGN.md); listed here only until its engine lands" for k in ["C08"]}
 
 def main():
     checks = []
